@@ -492,7 +492,7 @@ func c13Observe(r *Run, w *World, doubleCheck bool) (string, string) {
 	tr := w.TruthPar2()
 	v := r.Verify2(w, w.Index, 1, nil, SchedSpec{})
 	r.noPanic(v)
-	r.oracleVerify2(w, v, tr, false, false)
+	r.oracleVerify2(w, v, tr, true, false)
 	r.oracleWrites(w, v, "verify")
 	if v.HasRes {
 		vout = fmt.Sprintf("res(u%d/p%d)", v.Counts.UnusableDataShardCount, v.Counts.UsableParityShardCount)
